@@ -66,7 +66,13 @@ def r1(c):
             tag = '%s#%d' % (fn_, per_fn[fn_])
             if fn_ == RUN_ONE and not cs.is_(*PREDICATES):
                 continue      # the two-path transaction, checked exactly by R20.2
+            # a branch of a select! must not be armed / disarmed by a decode level (`fut, if level.enabled() => ..`)
             reg = controlled_region(b, on, off)
+            # (tokio::select! keeps its branch preconditions in a bit mask `disabled`, initialised by a call inside the expansion)
+            masks = {cs_.dest['l'] for cs_ in b.calls() if cs_.exp and str(cs_.mac).startswith('tokio:') and 'select' in str(cs_.mac) and (cs_.callee or '').endswith('::default') and not cs_.dest['p']}
+            either = reg | controlled_region(b, off, on)
+            sel_guard = [i for i, s_ in b.assigns() if ('b', i) in either and s_['pl']['l'] in masks]
+            c.ob('select-guard/%s' % tag, not sel_guard, 'no tokio::select! branch is enabled or disabled by a decode level: what the task listens to does not depend on logging', '%d updates of a select! branch mask under this switch' % len(sel_guard), cs.loc(), kind='decode-region')
             bad = []
             for x in b.calls():
                 if x.node not in reg:
@@ -279,3 +285,9 @@ def r8(c):
 def r9(c):
     from rules import c14
     c14.sleep_for_timer(c)
+
+
+@rule('C20', 'R20.10', 'a level change sent to a channel that is not connected is just a setting: it neither ends the task nor the wait it arrives in (C13/R13.5: wait_for_enabled gives up only on Shutdown; every wait keeps servicing the queue)')
+def r10(c):
+    from rules import c13
+    c13.r5(c)
